@@ -771,22 +771,40 @@ def r42(ctx, repo):
     n_sites = 0
     for rel in repo.files("dclab/"):
         src = repo.src(rel)
-        if rel == EVENTS or not any(n + "(" in src for n in child_names):
+        if rel == EVENTS or not any(n in src for n in child_names):
             continue
         for q, fn in repo.all_functions(rel):
+            # locals that hold one of the classes (`cls = A if c else B`)
+            holders = {}
+            for a in walk(fn):
+                if isinstance(a, ast.Assign) and len(a.targets) == 1 \
+                        and isinstance(a.targets[0], ast.Name):
+                    v = a.value
+                    alts = [v.body, v.orelse] if isinstance(
+                        v, ast.IfExp) else [v]
+                    if alts and all(isinstance(x, ast.Name)
+                                    and x.id in child_names for x in alts):
+                        holders.setdefault(a.targets[0].id, set()).update(
+                            x.id for x in alts)
             for c in walk(fn):
                 if not (isinstance(c, ast.Call) and isinstance(
-                        c.func, ast.Name) and c.func.id in child_names):
+                        c.func, ast.Name)):
+                    continue
+                if c.func.id in child_names:
+                    what = c.func.id
+                elif c.func.id in holders:
+                    what = "/".join(sorted(holders[c.func.id]))
+                else:
                     continue
                 n_sites += 1
                 ok = _flows_to_events(fn, c) and rel == BASE
                 ctx.ob("R4.2", ok,
-                       f"{c.func.id} object is kept in self._events only "
+                       f"{what} object is kept in self._events only "
                        f"(dropped by the refresh)" if ok else
-                       f"{c.func.id} object (memoises parent data) is "
+                       f"{what} object (memoises parent data) is "
                        f"created outside the refreshed cache self._events",
                        node=c, label=f"cache holds {short(c, 40)}")
-    if n_sites < 5:
+    if n_sites < 4:
         raise AnalysisError("construction sites of Child* objects lost")
 
     # inherited memo state
@@ -2054,4 +2072,61 @@ TWINS = list(TWINS) + [
     ("hidden-set union without the temporary list", HFILT,
      ("            pall = sorted(list(set(pbool + pold)))",
       "            pall = sorted(set(pbool) | set(pold))")),
+]
+
+# round-3 refactorings (campaign/refactorings_round3: C04/refactor1,
+# C02/refactor5)
+TWINS = list(TWINS) + [
+    ("ancestor walk through a module-level generator", HFILT,
+     [("class HierarchyFilter(Filter):\n",
+       "def _iter_ancestors(ds):\n"
+       "    \"\"\"Yield `ds` and then all of its hierarchy parents\"\"\"\n"
+       "    yield ds\n"
+       "    while ds.format == \"hierarchy\":\n"
+       "        ds = ds.hparent\n"
+       "        yield ds\n\n\n"
+       "class HierarchyFilter(Filter):\n"),
+      ("        hashes = []\n"
+       "        ds = self._parent_rtdc_ds\n"
+       "        while True:\n"
+       "            hashes.append(hashobj(ds.filter.all))\n" + _WALK_OLD,
+       "        hashes = [hashobj(ds.filter.all)\n"
+       "                  for ds in _iter_ancestors(self._parent_rtdc_ds)]\n"
+       )]),
+    ("feature wrapper class chosen by a conditional expression", BASE,
+     ("            if len(self.hparent[feat].shape) > 1:\n"
+      "                # non-scalar feature\n"
+      "                data = ChildNDArray(self, feat)\n"
+      "            else:\n"
+      "                # scalar feature\n"
+      "                data = ChildScalar(self, feat)\n",
+      "            feat_ndim = len(self.hparent[feat].shape)\n"
+      "            child_cls = ChildNDArray if feat_ndim > 1 else "
+      "ChildScalar\n"
+      "            data = child_cls(self, feat)\n")),
+]
+
+MUTANTS = list(MUTANTS) + [
+    ("generator of ancestors stops at the direct parent", HFILT,
+     [("class HierarchyFilter(Filter):\n",
+       "def _iter_ancestors(ds):\n"
+       "    yield ds\n\n\n"
+       "class HierarchyFilter(Filter):\n"),
+      ("        hashes = []\n"
+       "        ds = self._parent_rtdc_ds\n"
+       "        while True:\n"
+       "            hashes.append(hashobj(ds.filter.all))\n" + _WALK_OLD,
+       "        hashes = [hashobj(ds.filter.all)\n"
+       "                  for ds in _iter_ancestors(self._parent_rtdc_ds)]\n"
+       )], "R4.6"),
+    ("wrapper from a class-valued local returned without caching", BASE,
+     ("            if len(self.hparent[feat].shape) > 1:\n"
+      "                # non-scalar feature\n"
+      "                data = ChildNDArray(self, feat)\n"
+      "            else:\n"
+      "                # scalar feature\n"
+      "                data = ChildScalar(self, feat)\n",
+      "            child_cls = ChildNDArray if len(\n"
+      "                self.hparent[feat].shape) > 1 else ChildScalar\n"
+      "            return child_cls(self, feat)\n"), "R4.2"),
 ]
